@@ -5,7 +5,8 @@
 (* RandomForestClassifier / RandomForestRegressor:                         *)
 (*                                                                         *)
 (*   ForestFit   {key, base, digest, fdigest, status, in:{kind, n, p, X,   *)
-(*                Xq, y, nTrees, m, maxDepth, msl, mss, crit, keep, seed}, *)
+(*                xDen, Xq, y, yHex, nTrees, m, maxDepth, msl, mss, crit,  *)
+(*                keep, seed},     -- X, Xq: numerators over xDen          *)
 (*                obs}                                                     *)
 (*        one real fit (first of its key) with the complete observation    *)
 (*        record `obs` described in Forest.tla                             *)
@@ -22,8 +23,9 @@
 (* Forest.tla / ForestHist.tla (FitGuard, FitEffect) -- the fits of one    *)
 (* key are interleaved with fits of other seeds and other data, and the    *)
 (* earliest keys are fitted again at the very end of the session.  Every   *)
-(* observation goes through FirstFail, i.e. CountOK, ShapeOK,              *)
-(* OobAvailable, LabelsOK, VoteOK, OobOK, Stratified, MeanOK, RangeOK,     *)
+(* observation goes through FirstFail, i.e. CountOK, Usable, ShapeOK,      *)
+(* OobAvailable, PredictStable, LabelsOK, VoteOK, OobOK, Stratified,       *)
+(* MeanOK, RangeOK,                                                        *)
 (* InBagFit: the operators that are the invariant of the design models.    *)
 (*                                                                         *)
 (* The spec never blocks: a failing event prints <<"BAD", line, run, ev,   *)
@@ -98,7 +100,7 @@ AsAsked(e) == /\ e.obs.treePred = e.expect.treePred
               /\ e.obs.keep => e.obs.mask = e.expect.mask
 
 ObsClause(e) == IF e.status # "ok" THEN "Assemble"
-                ELSE IF ~(CountOK(e.obs) /\ ShapeOK(e.obs)) THEN FirstFail(e.obs, FALSE, FALSE)
+                ELSE IF ~(CountOK(e.obs) /\ Usable(e.obs) /\ ShapeOK(e.obs)) THEN FirstFail(e.obs, FALSE, FALSE)
                 ELSE IF ~AsAsked(e) THEN "Assemble"
                 ELSE FirstFail(e.obs, FALSE, FALSE)
 
